@@ -23,6 +23,7 @@ structure ScopeRel (env : Env) (s : FStack) (fs : Frames) (sc : Scope) : Prop wh
   inv : StackInv s fs
   xmlBound : lookupFrames fs Env.xmlPrefix = some Env.xmlNamespace
   valid : ∀ p n, lookupFrames fs p = some n → p < env.prefixes.length
+  validNs : ∀ p n, lookupFrames fs p = some n → n < env.namespaces.length
   notXmlns : ∀ p n, lookupFrames fs p = some n → env.prefixStr p ≠ xmlnsName
   look : ∀ p, p < env.prefixes.length →
     sc.lookup (env.prefixStr p) =
@@ -106,9 +107,11 @@ theorem lookupFrames_base {p n : Nat} (h : lookupFrames [basePrefixes] p = some 
 theorem ScopeRel.base (he : EnvFacts env) :
     ScopeRel env (FStack.new basePrefixes) [basePrefixes] baseScope := by
   have hu : UniquePrefixes basePrefixes := by simp [UniquePrefixes, basePrefixes]
-  refine ⟨StackInv.base _ hu, by simp [lookupFrames, basePrefixes], ?_, ?_, ?_⟩
+  refine ⟨StackInv.base _ hu, by simp [lookupFrames, basePrefixes], ?_, ?_, ?_, ?_⟩
   · intro p n hl
     rw [(lookupFrames_base hl).1]; exact he.xmlPrefix_lt
+  · intro p n hl
+    rw [(lookupFrames_base hl).2]; exact he.xmlNamespace_lt
   · intro p n hl
     rw [(lookupFrames_base hl).1, he.p1]; simp [xmlnsName]
   · intro p hp
@@ -135,7 +138,7 @@ theorem ScopeRel.push (he : EnvFacts env) {s : FStack} {fs : Frames} {sc : Scope
     ScopeRel env (s.push decls) (decls :: fs) (sc.push (decls.map (declStr env))) := by
   have hmem : ∀ p n, List.lookup p decls = some n → (p, n) ∈ decls := fun p n hl =>
     (lookup_some_iff hd.1 p n).mp hl
-  refine ⟨h.inv.push' hd.1, ?_, ?_, ?_, ?_⟩
+  refine ⟨h.inv.push' hd.1, ?_, ?_, ?_, ?_, ?_⟩
   · rw [lookupFrames_cons]
     have : List.lookup Env.xmlPrefix decls = none := by
       rw [lookup_none_iff]
@@ -148,6 +151,13 @@ theorem ScopeRel.push (he : EnvFacts env) {s : FStack} {fs : Frames} {sc : Scope
     cases hq : List.lookup p decls with
     | some m => exact hd.prefix_lt he (hmem p m hq)
     | none => rw [hq] at hl; exact h.valid p n hl
+  · intro p n hl
+    rw [lookupFrames_cons] at hl
+    cases hq : List.lookup p decls with
+    | some m =>
+      rw [hq] at hl
+      exact (Option.some.inj hl) ▸ hd.namespace_lt he (hmem p m hq)
+    | none => rw [hq] at hl; exact h.validNs p n hl
   · intro p n hl
     rw [lookupFrames_cons] at hl
     cases hq : List.lookup p decls with
@@ -190,17 +200,17 @@ theorem ScopeRel.reserved {s : FStack} {fs : Frames} {sc : Scope} (h : ScopeRel 
 theorem ScopeRel.resolvePrefix (he : EnvFacts env) {s : FStack} {fs : Frames} {sc : Scope}
     (h : ScopeRel env s fs sc) {q ns : Nat} (hr : resolvePrefix fs q = some ns) :
     sc.lookup (env.prefixStr q) = some (env.namespaceStr ns) ∧ q < env.prefixes.length ∧
-      env.prefixStr q ≠ xmlnsName := by
+      env.prefixStr q ≠ xmlnsName ∧ ns < env.namespaces.length := by
   unfold Props.resolvePrefix at hr
   by_cases hq : (q == Env.xmlPrefix) = true
   · have hq' : q = Env.xmlPrefix := by simpa using hq
     simp only [hq, if_true, Option.some.injEq] at hr
     subst hr hq'
-    refine ⟨?_, he.xmlPrefix_lt, by rw [he.p1]; simp [xmlnsName]⟩
+    refine ⟨?_, he.xmlPrefix_lt, by rw [he.p1]; simp [xmlnsName], he.xmlNamespace_lt⟩
     rw [h.look _ he.xmlPrefix_lt, h.xmlBound]
   · simp only [hq, Bool.false_eq_true, if_false] at hr
     have hv := h.valid q ns hr
-    refine ⟨?_, hv, h.notXmlns q ns hr⟩
+    refine ⟨?_, hv, h.notXmlns q ns hr, h.validNs q ns hr⟩
     rw [h.look q hv, hr]
 
 /-- Element names: the prefix text the serialiser writes resolves to the URI of the name's
@@ -208,7 +218,8 @@ theorem ScopeRel.resolvePrefix (he : EnvFacts env) {s : FStack} {fs : Frames} {s
 theorem ScopeRel.element (he : EnvFacts env) {s : FStack} {fs : Frames} {sc : Scope}
     (h : ScopeRel env s fs sc) {name : Nat} {p : Option Nat} (hp : s.elementPrefix env name = .ok p)
     (hcheck : ¬ (env.nsOfName name = Env.noNamespace ∧ s.hasDefaultNamespace = true)) :
-    sc.lookup (prefixText env p) = some (env.namespaceStr (env.nsOfName name)) := by
+    sc.lookup (prefixText env p) = some (env.namespaceStr (env.nsOfName name)) ∧
+      env.nsOfName name < env.namespaces.length := by
   have hres := C10_sound_prefix env s fs name p h.inv h.reserved hp hcheck
   cases p with
   | none =>
@@ -217,12 +228,12 @@ theorem ScopeRel.element (he : EnvFacts env) {s : FStack} {fs : Frames} {sc : Sc
     have := h.look Env.emptyPrefix he.emptyPrefix_lt
     rw [he.p0] at this
     rw [this, ← hres]
-    cases lookupFrames fs Env.emptyPrefix with
-    | none => simp [he.ns0]
-    | some n => rfl
+    cases hl : lookupFrames fs Env.emptyPrefix with
+    | none => exact ⟨by simp [he.ns0], he.noNamespace_lt⟩
+    | some n => exact ⟨rfl, h.validNs _ n hl⟩
   | some q =>
     simp only [resolveElementName] at hres
-    exact (h.resolvePrefix he hres).1
+    exact ⟨(h.resolvePrefix he hres).1, (h.resolvePrefix he hres).2.2.2⟩
 
 /-- Attribute names. -/
 theorem ScopeRel.attribute (he : EnvFacts env) {s : FStack} {fs : Frames} {sc : Scope}
@@ -231,20 +242,22 @@ theorem ScopeRel.attribute (he : EnvFacts env) {s : FStack} {fs : Frames} {sc : 
       (prefixText env p ≠ [] → (sc.lookup (prefixText env p)).isSome = true) ∧
       prefixText env p ≠ xmlnsName ∧
       (prefixText env p = [] → env.nsOfName name = Env.noNamespace) ∧
-      (prefixText env p = ['x', 'm', 'l'] → env.nsOfName name = Env.xmlNamespace) := by
+      (prefixText env p = ['x', 'm', 'l'] → env.nsOfName name = Env.xmlNamespace) ∧
+      env.nsOfName name < env.namespaces.length := by
   obtain ⟨hres, hne⟩ := C10_sound_attribute env s fs name p h.inv h.reserved hp
   cases p with
   | none =>
     simp only [resolveAttributeName, Option.some.injEq] at hres
     simp only [prefixText, Scope.attrNs, if_true, ← hres, he.ns0]
-    refine ⟨trivial, fun hh => absurd rfl hh, by simp [xmlnsName], fun _ => trivial, fun hh => by cases hh⟩
+    refine ⟨trivial, fun hh => absurd rfl hh, by simp [xmlnsName], fun _ => trivial, fun hh => (by cases hh),
+      he.noNamespace_lt⟩
   | some q =>
     simp only [resolveAttributeName] at hres
-    obtain ⟨hl, hq, hx⟩ := h.resolvePrefix he hres
+    obtain ⟨hl, hq, hx, hnslt⟩ := h.resolvePrefix he hres
     have hq0 : q ≠ Env.emptyPrefix := fun hh => hne (by rw [hh])
     have hstr : env.prefixStr q ≠ [] := fun hh =>
       hq0 (he.prefixStr_inj hq he.emptyPrefix_lt (by rw [hh, he.p0]))
-    refine ⟨?_, fun _ => by simp [prefixText, hl], hx, fun hh => absurd hh hstr, fun hh => ?_⟩
+    refine ⟨?_, fun _ => by simp [prefixText, hl], hx, fun hh => absurd hh hstr, fun hh => ?_, hnslt⟩
     · simp only [prefixText, Scope.attrNs, hstr, if_false, Scope.resolve, hl, Option.getD_some]
     have hq1 : q = Env.xmlPrefix := he.prefixStr_inj hq he.xmlPrefix_lt (by rw [he.p1]; exact hh)
     subst hq1
